@@ -58,13 +58,13 @@ var freeROMs = []string{
 
 func randomWorkload(r *engine.Rand) workload {
 	w := workload{Seed: r.U64(), Audio: r.Chance(1, 2), Video: r.Chance(2, 3)}
-	switch r.Intn(6) {
+	switch r.Intn(7) {
 	case 0, 1:
 		w.Kind = "rom"
 		w.ROM = engine.Pick(r, freeROMs)
 	case 2, 3:
 		w.Kind = "scene"
-	case 4:
+	case 4, 5:
 		w.Kind = "prog"
 	default:
 		w.Kind = "rand"
@@ -146,6 +146,14 @@ func newFree(w workload, chanCap int, res *engine.Result) *machine.Machine {
 			// cartridge with a controller: enable its RAM and use it as one more data window
 			g.emit(0x3e, 0x0a, 0xea, 0x00, 0x00)
 			g.cartRAM = true
+			// like a save-file counter: cells the program reads before it has written them (what they
+			// hold at power-on decides what it does)
+			for j, k := 0, r.Range(1, 4); j < k; j++ {
+				g.emit16(0x21, 0xa000+uint16(r.Intn(0x200)))
+				g.emit(engine.Pick(r, []uint8{0x34, 0x34, 0x35, 0x86, 0xae}))
+				g.emit16(0x21, lsStackLo-0x100+uint16(r.Intn(0x80)))
+				g.emit(0x77)
+			}
 		}
 		for i, n := 0, r.Range(8, 60); i < n; i++ {
 			switch r.Intn(8) {
